@@ -1,4 +1,5 @@
 import DiffxVerif.Lemmas.Encoding
+import DiffxVerif.Lemmas.Order
 /-!
 # C04 — Encoding inheritance follows nesting: nearest ancestor wins, siblings never leak
 
@@ -77,6 +78,24 @@ theorem C04_writer (enc : Option Name) (cs : List WCall)
       Spec.nearest (Spec.openDecls ((0, declared enc) :: cs.map fun c => (c.1 - 1, declared c.2))) :=
   writer_top_eq_nearest enc cs he hl hn
 
+/-- **Writer, unrestricted.** `he` of `C04_writer` is implied by the constructor call being
+accepted: `DiffXWriter(fp, encoding='')` is now refused (`DiffXOptionValueError`: the empty
+string is not an option value), so every constructed writer was given `None` or a non-empty
+name.  For every writer that exists, after any properly nested sequence of `new_change` /
+`new_file` calls `_cur_encoding` is the nearest enclosing declaration. -/
+theorem C04_writer_accepted (enc : Option Name) (ver : Text) (cs : List WCall)
+    (hi : (Writer.init enc ver).2 = .ok)
+    (hl : ∀ c ∈ cs, c.1 = 2 ∨ c.1 = 3)
+    (hn : Spec.Nested [declared enc] (cs.map fun c => (c.1 - 1, declared c.2))) :
+    ((writerStack enc cs).getLast?).getD none =
+      Spec.nearest (Spec.openDecls ((0, declared enc) :: cs.map fun c => (c.1 - 1, declared c.2))) :=
+  writer_top_eq_nearest enc cs (Writer.init_ok_truthy enc ver hi) hl hn
+
+/-- `writerStack enc []` is the `_stack` of the writer the constructor leaves behind -/
+theorem C04_init_stack (enc : Option Name) (ver : Text) (hi : (Writer.init enc ver).2 = .ok) :
+    (Writer.init enc ver).1.stack = writerStack enc [] :=
+  Writer.init_ok_stack enc ver hi
+
 /-- **Siblings never leak.** Whatever was declared inside earlier changes and
 files, right after a new change header that declares nothing the effective
 encoding is the main section's declaration; after a new file header that
@@ -132,5 +151,10 @@ example : WellNested [(SecId.main, some (.str b!"utf-8")), (SecId.change, some (
 example : ((writerStack (some []) []).getLast?).getD none ≠
     Spec.nearest (Spec.openDecls ((0, declared (some [])) :: ([] : List WCall).map fun c => (c.1 - 1, declared c.2))) := by
   decide
+
+/-- … but that writer no longer exists: the constructor refuses `encoding=''` and leaves
+nothing written (`C04_writer_accepted` therefore needs no such hypothesis) -/
+example : (Writer.init (some []) (Text.ofAscii b!"1.0")).2 = .optionError ∧
+    (Writer.init (some []) (Text.ofAscii b!"1.0")).1.out = [] := by decide
 
 end Diffx.C04
